@@ -213,7 +213,9 @@ def cases(tier, seed=0):
 def convert_cases(tier):
     q = tier == 'quick'
     k = 0
-    for A in U.RICH_BASE + ([[0.0, 0.0], [0.0, 0.0]], [[5.0]]):
+    # all-zero tables are left out here: the JSON the library writes for them cannot be read back by the
+    # library (a JSON-reader defect, property C02), so `biom convert` never reaches the HDF5 writer
+    for A in U.RICH_BASE + ([[0.0, 2.0], [0.0, 0.0]], [[5.0]]):
         for ids in sorted(rt.ID_ALPHABETS):
             for omd, smd in (('none', 'none'), ('tax', 'text'), ('mixed', 'num'), ('tax_ragged', 'text_edge')):
                 k += 1
